@@ -40,7 +40,7 @@ pub fn alias_tokinizer(tokinizer: &mut Tokinizer) {
     }
 
     for token in tokinizer.token_infos.iter() {
-        for (re, data) in tokinizer.config.language_alias_regex.get(&tokinizer.language).unwrap().iter() {
+        for (re, data) in tokinizer.config.language_alias_regex.get(&tokinizer.language).into_iter().flatten() {
             if re.is_match(&token.original_text.to_lowercase()) {
                 let new_values = match tokinizer.config.token_parse_regex.get("atom") {
                     Some(items) => get_atom(tokinizer.config, data, items),
